@@ -95,6 +95,57 @@ pub fn run(ctx: &mut Ctx, _replay: Option<&[String]>) {
             }
         }
     }
+    // (i-e) block sizes that do NOT fit (8PSK with a frame length that is not a multiple of 3, interleaver columns that do not divide the
+    // frame): the run must fail and no LLR vector may reach a decoder (C12.misfit_psk8_panics / misfit_interleaver_panics)
+    {
+        let shapes: [(usize, usize); 5] = [(5, 10), (4, 8), (7, 16), (6, 14), (8, 20)];
+        for (r, ncw) in shapes {
+            let h = staircase_h(&mut rng, r, ncw);
+            let mut cfgs: Vec<(Modulation, Option<Vec<bool>>, isize)> = Vec::new();
+            for pat in [None, Some(vec![true, false]), Some(vec![true, true, true, false])] {
+                let (trues, plen) = pat.as_ref().map(|p: &Vec<bool>| (p.iter().filter(|&&b| b).count(), p.len())).unwrap_or((1, 1));
+                if ncw % plen != 0 { continue; }
+                let n = ncw * trues / plen;
+                if n % 3 != 0 { cfgs.push((Modulation::Psk8, pat.clone(), 0)); }
+                if pat.is_none() {
+                    for c in [3isize, -3, 7, -7, 6, 9] {
+                        if n % c.unsigned_abs() != 0 { cfgs.push((Modulation::Bpsk, None, c)); }
+                    }
+                }
+            }
+            for (modulation, pat, inter) in cfgs {
+                let fac = Scripted {
+                    counter: Arc::new(AtomicU64::new(0)), log: Arc::new(Mutex::new(Vec::new())), log_limit: 64,
+                    panic_every: 0, built: Arc::new(AtomicU64::new(0)), seed: ctx.seed, seq: false,
+                };
+                let log = fac.log.clone();
+                // built and run inside a watchdog thread: a run that neither fails nor finishes is reported as `hang`
+                let (tx, rx) = std::sync::mpsc::channel();
+                {
+                    let (h2, pat2) = (h.clone(), pat.clone());
+                    std::thread::spawn(move || {
+                        let built = BerTestBuilder {
+                            h: h2, decoder_implementation: fac, modulation, puncturing_pattern: pat2.as_deref(),
+                            interleaving_columns: if inter == 0 { None } else { Some(inter) }, max_frame_errors: 3, max_iterations: 5,
+                            ebn0s_db: &[60.0], reporter: None, bch_max_errors: 0,
+                        }.build();
+                        let r = match built { Err(_) => false, Ok(t) => t.run().is_ok() };
+                        let _ = tx.send(r);
+                    });
+                }
+                let res = match rx.recv_timeout(std::time::Duration::from_secs(60)) {
+                    Ok(true) => "ok".to_string(), Ok(false) => "err".to_string(), Err(_) => "hang".to_string(),
+                };
+                let lens: Vec<String> = log.lock().unwrap().iter().map(|v| v.len().to_string()).collect();
+                let bps = if modulation == Modulation::Psk8 { 3 } else { 1 };
+                ctx.emit(&format!("c12 misfit {} {} {} {}", sm(&h), if bps == 3 { "P" } else { "B" },
+                    pat.as_ref().map(|p| bools(p.iter().copied())).unwrap_or("-".into()),
+                    if inter > 0 { format!("+{}", inter) } else { inter.to_string() }),
+                    &format!("{} {} {}", res, lens.len(), if lens.is_empty() { "-".to_string() } else { lens.join(",") }), true,
+                    &[if bps == 3 { "misfit-8psk-frame-not-multiple-of-3" } else { "misfit-interleaver-columns" }]);
+            }
+        }
+    }
     // (i-d) several Eb/N0 points in one run: the LAST frame handed to a decoder belongs to the last point and must have that point's LLR scale
     {
         let h = &hs[0];
